@@ -185,24 +185,24 @@ def replay_dot(case):
 
     # a column counts as used on the left-hand side however it is used there: by name, or inside a python expression
     # (by name / inside an arithmetic expression / through attribute access)
-    how = (sum(map(ord, "".join(cols))) + len(lhs)) % 3
-    wrap = [quote, (lambda v: "{" + quote(v) + " + 0}"), (lambda v: "{" + quote(v) + ".T}")][how]
-    formula = (" + ".join(wrap(v) for v in lhs) + " ~ 0 + .") if lhs else "0 + ."
-    base = {"formula": formula, "columns": cols}
+    wraps = [quote, (lambda v: "{" + quote(v) + " + 0}"), (lambda v: "{" + quote(v) + ".T}")]
     bad = []
-    try:
-        mm = model_matrix(formula, df, context={})
-        rhs = mm.rhs if lhs else mm
-        got = list(rhs.model_spec.column_names)
-        if got != case["dot"]:
-            bad.append({**base, "why": "'.' expansion", "observed": got, "expected": case["dot"]})
-        f2 = Formula(formula, _context={"__formulaic_variables_available__": cols})
-        terms = [str(t) for t in (f2.rhs if lhs else f2)]
-        if terms != case["dot"]:
-            bad.append({**base, "why": "'.' expansion with an explicit available-variable list", "observed": terms, "expected": case["dot"]})
-    except Exception as e:  # noqa
-        bad.append({**base, "why": "exception", "observed": type(e).__name__ + ": " + str(e)[:120]})
-    return bad, 2
+    for wrap in (wraps if lhs else wraps[:1]):
+        formula = (" + ".join(wrap(v) for v in lhs) + " ~ 0 + .") if lhs else "0 + ."
+        base = {"formula": formula, "columns": cols}
+        try:
+            mm = model_matrix(formula, df, context={})
+            rhs = mm.rhs if lhs else mm
+            got = list(rhs.model_spec.column_names)
+            if got != case["dot"]:
+                bad.append({**base, "why": "'.' expansion", "observed": got, "expected": case["dot"]})
+            f2 = Formula(formula, _context={"__formulaic_variables_available__": cols})
+            terms = [str(t) for t in (f2.rhs if lhs else f2)]
+            if terms != case["dot"]:
+                bad.append({**base, "why": "'.' expansion with an explicit available-variable list", "observed": terms, "expected": case["dot"]})
+        except Exception as e:  # noqa
+            bad.append({**base, "why": "exception", "observed": type(e).__name__ + ": " + str(e)[:120]})
+    return bad, 2 * (3 if lhs else 1)
 
 
 CAPTURE_SRC = """
